@@ -69,6 +69,8 @@ COMBINATORS = {
     "const": ("lambda a, b: a ** b ** a", 2, ("p", 0), fun(A, A, A), True),
     "ident": ("lambda a: a ** a", 1, ("p", 0), fun(A, A), True),
     "twice": ("lambda a: (a ** a) ** a ** a", 2, ("app", ("p", 0), ("app", ("p", 0), ("p", 1))), fun(fun(A, A), A, A), False),
+    # a DATA parameter used twice (the argument - possibly a whole application - occurs twice in the expansion)
+    "dupl": ("lambda a, b: (a ** a ** b) ** a ** b", 2, ("app", ("app", ("p", 0), ("p", 1)), ("p", 1)), fun(fun(A, A, A), A, A), False),
 }
 
 
